@@ -21,7 +21,6 @@ import (
 	"fmt"
 	"os"
 	"path/filepath"
-	"runtime/pprof"
 	"strings"
 	"sync"
 	"sync/atomic"
@@ -53,10 +52,13 @@ func main() {
 	backend := fs.String("backend", "memdb", "backend for trace generation")
 	every := fs.Bool("every-step", false, "judge every step of each behaviour (simulated behaviours), not only the last (transition cover)")
 	_ = fs.Parse(os.Args[2:])
-	if pf := os.Getenv("VH_CPUPROFILE"); pf != "" {
-		f, _ := os.Create(pf)
-		_ = pprof.StartCPUProfile(f)
-		defer pprof.StopCPUProfile()
+	if *dir == "" && cmd != "probe" {
+		tmp, err := os.MkdirTemp("", "vh-txindex-")
+		if err != nil {
+			hx.Fatal("%v", err)
+		}
+		defer os.RemoveAll(tmp)
+		*dir = tmp
 	}
 	switch cmd {
 	case "replay":
@@ -558,6 +560,7 @@ func replay(in, variants, dir string, every bool) {
 	idx := 0
 	cur := group{}
 	var curPrefix []byte
+	seen := map[[32]byte]bool{}
 	flush := func() {
 		if len(cur.lines) > 0 {
 			jobs <- cur
@@ -570,6 +573,13 @@ func replay(in, variants, dir string, every bool) {
 			continue
 		}
 		line := append([]byte{}, b...)
+		if every {
+			h := sha256.Sum256(line)
+			if seen[h] {
+				continue
+			}
+			seen[h] = true
+		}
 		p := prefixOf(line)
 		if every || len(cur.lines) == 0 || len(cur.lines) >= 4096 || !bytes.Equal(p, curPrefix) {
 			flush()
